@@ -681,6 +681,9 @@ pub fn suite_assumptions(ctx: &Ctx, thorough: bool) {
         if lower.is_empty() {
             ctx.violate("A.axiom_lower_nonempty", "to_lowercase never yields the empty string", inp(), lower.clone(), "non-empty".into());
         }
+        if c != ',' && lower.contains(',') {
+            ctx.violate("A.lower_no_comma", "to_lowercase never produces ',' from another char", inp(), lower.clone(), "no comma".into());
+        }
         if !matches!(c, '-' | '_' | '.') && lower.chars().any(|x| matches!(x, '-' | '_' | '.')) {
             ctx.violate("A.lower_no_dash", "to_lowercase never produces - _ . from another char", inp(), lower.clone(), "no dash".into());
         }
